@@ -18,9 +18,16 @@ type propSpec struct {
 	MinStores int
 	SeqScope  Scope
 	MinSeq    int
+	Extra     []extraScope // further inventories (guards, conditions, calls) over dependency code named in the property's anchors
 	MinFuncs  int
 	Check     func(r *Run)
 	NeedSSA   bool
+}
+
+type extraScope struct {
+	Name  string
+	Scope Scope
+	Min   int
 }
 
 var props = map[string]*propSpec{}
@@ -93,6 +100,13 @@ func runEmit(prop string) int {
 	if len(spec.Scope.Include) > 0 && prop != "C12" {
 		r.EmitCondRef(prop+"_conds.json", spec.Scope)
 		fmt.Println(prop + ": wrote branch-condition reference")
+	}
+	for _, x := range spec.Extra {
+		if err := r.EmitGuardRef(prop+"_"+x.Name+"_guards.json", x.Scope); err != nil {
+			fmt.Fprintln(os.Stderr, err)
+		}
+		r.EmitCondRef(prop+"_"+x.Name+"_conds.json", x.Scope)
+		r.EmitSeqRef(prop+"_"+x.Name+"_calls.json", x.Scope)
 	}
 	if len(spec.SeqScope.Include) > 0 {
 		r.EmitSeqRef(prop+"_calls.json", spec.SeqScope)
